@@ -188,3 +188,43 @@ def validate_evidence(ev):
     except Exception as e:
         p.append('not json: {}'.format(e))
     return p
+
+
+# ---------------------------------------------------------------------------------------------------------------- fork token
+# On this kind of box a fork costs ~30 ms when one process forks (even with all other cores busy computing) but 200-350 ms when 16
+# processes fork at the same time, i.e. concurrent forking is slower than serial forking.  Every fork-heavy section of a check
+# (one execution under vmc.sched, one call of a function compiled with maxprocs>1) therefore runs under a machine-wide token.
+# Only speed is affected: the token is advisory and re-entrant per process.
+
+_FORK = {'fd': None, 'depth': 0, 'pid': None}
+
+
+@contextlib.contextmanager
+def fork_token():
+    import fcntl
+    if _FORK['pid'] != os.getpid():   # first use in this process (or in a forked child: own depth, shared description is harmless)
+        _FORK.update(pid=os.getpid(), depth=0)
+        if _FORK['fd'] is None:
+            d = os.path.join(os.path.dirname(os.path.dirname(os.path.abspath(__file__))), '.locks')
+            try:
+                os.makedirs(d, exist_ok=True)
+                _FORK['fd'] = os.open(os.path.join(d, 'fork.lock'), os.O_CREAT | os.O_RDWR, 0o666)
+            except OSError:
+                _FORK['fd'] = -1
+    if _FORK['fd'] == -1 or _FORK['depth'] > 0:
+        _FORK['depth'] += 1
+        try:
+            yield
+        finally:
+            _FORK['depth'] -= 1
+        return
+    fcntl.flock(_FORK['fd'], fcntl.LOCK_EX)
+    _FORK['depth'] = 1
+    try:
+        yield
+    finally:
+        _FORK['depth'] = 0
+        try:
+            fcntl.flock(_FORK['fd'], fcntl.LOCK_UN)
+        except OSError:
+            pass
